@@ -1,6 +1,6 @@
 (* C12 - printing to a failing writer reports exact byte counts and a clean prefix. *)
 From Coq Require Import ZArith List Lia Bool.
-Require Import Views HistModel PrnModel PrintModel Bufio PrintOps PrintOpsProof.
+Require Import Views HistModel PrnModel PrintModel Bufio PrintOps PrintOpsProof BufioTerm.
 Import ListNotations.
 Open Scope Z_scope.
 
@@ -31,6 +31,25 @@ Theorem C12_count_prefix_latch : forall (wst : Type) (wstep : wst -> list Z -> n
   (berr wst sF = true -> (0 < nfault wst sF)%nat).
 Proof. exact fprint_faults. Qed.
 Print Assumptions C12_count_prefix_latch.
+
+(* Fprint / Fwrite return: for every underlying writer that, on a non-empty Write, accepts at least one byte or
+   reports an error (only writers answering (0, nil) are excluded: on those bufio.Writer.Write itself never returns),
+   every buffer size >= 1 and every operation sequence, the model needs at most 2*|bytes|+2 units of fuel per
+   operation - no operation loops, and (with the repaired gap loop) neither does the call *)
+Theorem C12_returns : forall (wst : Type) (wstep : wst -> list Z -> nat * bool * wst) (size : nat),
+  (0 < size)%nat ->
+  (forall w p, p <> [] -> let '(n, e, _) := wstep w p in (0 < n)%nat \/ e = true) ->
+  forall fuel ops (s : bst wst) issued,
+  Forall (fun o => (2 * length (op_bytes o) + 2 <= fuel)%nat) ops ->
+  exists r, exec wst wstep size fuel s ops issued = Some r.
+Proof. exact exec_terminates. Qed.
+Print Assumptions C12_returns.
+
+(* in particular for the property's writer class (k more bytes, then error / short write / recovery) *)
+Theorem C12_returns_fault_writers : forall size w0 ops fuel, (0 < size)%nat ->
+  Forall (fun o => (2 * length (op_bytes (fst o)) + 2 <= fuel)%nat) ops ->
+  exists r, run_fprint fuel size w0 ops = Some r.
+Proof. exact fprint_returns. Qed.
 
 (* The gap loop of printer.Consume as pinned (`for p.index < posit { rawPrinter.Consume(missing) }`) does not
    terminate once an error is latched inside a gap: rawPrinter.Consume returns without advancing index.
